@@ -17,7 +17,7 @@ from checks import gcm_common as G
 PID = "C03"
 RULE = ("(a) exhaustive family: every joint degree sequence with N<=4 (quick) / N<=5 (thorough) vertices, one topology "
         "of size 2 or 3 with <= 6 stubs, or two topologies of sizes in {2,3} with <= 4 stubs each, for the fast and "
-        "the custom generator; (b) Hypothesis-generated wider shapes (sizes 1..5, <= 4 motifs, multi-orbit custom "
+        "the custom generator, plus (fast generator) one-topology sequences whose stub count is not a multiple of the motif size; (b) Hypothesis-generated wider shapes (sizes 1..5, <= 4 motifs, multi-orbit custom "
         "motifs, network variant) under a leaf cap; (c) seeded chi-square tests of partner uniformity on 24..40 "
         "degree-1 vertices. For (a),(b) the full RNG decision tree is enumerated and every distinct ordered stub "
         "sequence must have exactly equal probability and all must occur. Non-trivial = >= 2 distinct outcomes; "
@@ -66,6 +66,14 @@ def enumerated(tier, seed):
                         for c1 in compositions(n1, N):
                             for c2 in compositions(n2, N):
                                 cases.append(mk(algo, N, [c1, c2], [s1, s2]))
+    # stub counts that are not a multiple of the motif size (the fast generator then builds a truncated last motif):
+    # which stubs end up in it must be uniform as well
+    for N in range(1, Nmax + 1):
+        for s_ in (2, 3):
+            for n in range(1, 7):
+                if n % s_:
+                    for c in compositions(n, N):
+                        cases.append(mk("fast", N, [c], [s_]))
     # the corollary named in the statement: four degree-1 vertices, three perfect matchings, 1/3 each
     for algo in ("fast", "motifs", "network"):
         cases.append({**mk("fast" if algo != "motifs" else "motifs", 4, [[1, 1, 1, 1]], [2]), "algo": algo,
